@@ -85,13 +85,18 @@ func optWire(o dhcpv6.Option) string {
 }
 
 type c16ctx struct {
-	res  *OracleResult
-	seen map[uint64]struct{}
+	res      *OracleResult
+	seen     map[uint64]struct{}
+	perClass map[string]int
 }
 
+// fail records a failure; at most three inputs are kept per clause so that the
+// report shows every clause that broke, not twenty instances of the first.
 func (c *c16ctx) fail(class, line, what string) {
-	if len(line) > 6000 {
-		line = line[:6000]
+	c.perClass[class]++
+	if c.perClass[class] > 3 {
+		c.res.NFailures++
+		return
 	}
 	c.res.fail(Failure{Oracle: "c16", Input: line, What: what, Class: class})
 }
@@ -542,7 +547,7 @@ func (c *c16ctx) fromLine(line string) {
 }
 
 func oracleC16(r *Rng, n int, thorough bool, seeds []string) *OracleResult {
-	c := &c16ctx{res: &OracleResult{Tags: map[string]int{}}, seen: map[uint64]struct{}{}}
+	c := &c16ctx{res: &OracleResult{Tags: map[string]int{}}, seen: map[uint64]struct{}{}, perClass: map[string]int{}}
 	for _, s := range seeds {
 		c.fromLine(s)
 	}
